@@ -42,6 +42,23 @@ def ff_design(rng, name):
   if rng.random() < 0.5 and not blocks[k][0].startswith('if'):
     t = blocks[k][0].split(' <<=')[0]
     blocks[k] = [f'{t} <<= {src0}'] + blocks[k]; feats.add('last-wins')
+  # accumulate-and-clear idiom: the LAST assignment is an int literal that may equal the current value
+  if rng.random() < 0.6:
+    L.append(f's.acc = Wire( {w} )')
+    blocks.append([f's.acc <<= s.acc + {src0}', 'if s.en:', f'  s.acc <<= {rng.choice([0, 0, 1])}']); feats.add('clear-with-int-literal')
+  # a struct register with a 2-D list field
+  if rng.random() < 0.5:
+    L += ['s.ig = InPort( Grid )', 's.sg = Wire( Grid )', 's.sg2 = Wire( Grid )', 's.og = OutPort( 4 )', 'connect( s.og, s.sg2.g[1][1] )']
+    blocks.append(['s.sg <<= s.ig']); blocks.append(['s.sg2 <<= s.sg'] if rng.random() < 0.6 else ['if s.en:', '  s.sg2 <<= s.sg'])
+    feats.add('struct-reg-2d-list'); has_grid = True
+  else: has_grid = False
+  # many small branchy update_ff blocks (schedulers pack them into meta blocks)
+  if rng.random() < 0.35:
+    m = rng.randrange(7, 15)
+    L.append(f's.bank = [ Wire( 8 ) for _ in range({m}) ]')
+    for j in range(m):
+      blocks.append(['if s.en:', f'  s.bank[{j}] <<= s.i0 + {j}'] if rng.random() < 0.8 else ['if s.i0[0]:', f'  s.bank[{j}] <<= s.bank[{(j+1) % m}]', 'elif s.en:', f'  s.bank[{j}] <<= 1'])
+    feats.add('many-branchy-ff')
   # merge some blocks
   if rng.random() < 0.4 and len(blocks) > 2:
     a = blocks.pop(); blocks[0] = blocks[0] + a; feats.add('multi-reg-block')
@@ -70,8 +87,17 @@ def ff_design(rng, name):
     L += ['@update_ff', f'def f{i}():'] + ['  ' + x for x in b]
   body = '\n'.join('    ' + l for l in L)
   class G: pass
-  g = G(); g.name = name; g.inputs = [('i0', ('bits', 8)), ('i1', ('struct', 'Pt')), ('en', ('bits', 1))]; g.features = feats
-  g.src = sc.STRUCT_SRC + f'\nclass {name}( Component ):\n  def construct( s ):\n{body}\n'
+  g = G(); g.name = name; g.inputs = [('i0', ('bits', 8)), ('i1', ('struct', 'Pt')), ('en', ('bits', 1))] + ([('ig', ('struct', 'Grid'))] if has_grid else []); g.features = feats
+  if rng.random() < 0.4:
+    feats.add('wrapped-one-level-down')
+    w_ = [f's.d = {name}_inner()']
+    for n_, typ in g.inputs:
+      t_ = typ[1] if typ[0] == 'struct' else str(typ[1])
+      w_ += [f's.{n_} = InPort( {t_} )', f'connect( s.{n_}, s.d.{n_} )']
+    wb = '\n'.join('    ' + l for l in w_)
+    g.src = sc.STRUCT_SRC + f'\nclass {name}_inner( Component ):\n  def construct( s ):\n{body}\n' + f'\nclass {name}( Component ):\n  def construct( s ):\n{wb}\n'
+  else:
+    g.src = sc.STRUCT_SRC + f'\nclass {name}( Component ):\n  def construct( s ):\n{body}\n'
   g.source = lambda: g.src
   return g
 
@@ -99,7 +125,10 @@ def oracle_tick(ctx, top, g, fpl, src, cyc):
         merged[id(x)] = (x, x._next)
   sc.restore_state(pre)
   for x, v in merged.values(): x._next = v
-  for f in top._sched.schedule_posedge_flip: f()
+  # the edge itself, done by the oracle independently of the generated flip function: EVERY double-buffered
+  # leaf takes its next-value (all registers change together)
+  for x, u, nx in pre:
+    if nx is not None: x._uint = x._next
   for b in top._sched.update_schedule: b()
   return sc.snapshot(top)
 
